@@ -217,6 +217,11 @@ pub fn run(ctx: &Ctx) -> i32 {
         let e2e = crate::props::net::NetEngine { prop: "C04" };
         total.merge(run_generated(ctx, &e2e, "netsim-h2-sharing", || crate::props::net::ordered(crate::props::net::c04_e2e_strategy(8)), ctx.cases(6_000, 300_000), 300));
     }
+    if d.prop == "C04" {
+        // real time, HTTP/2: a connection in steady use outlives its idle timeout
+        let rctx = Ctx { threads: 16, ..ctx.clone() };
+        total.merge(run_generated(&rctx, &crate::engines::rtpool::RtPoolEngine { prop: "C04" }, "real-time-h2-steady-use", crate::engines::rtpool::h2_strategy, ctx.cases(64, 2_000), 16));
+    }
     if d.prop == "C05" || d.prop == "C15" {
         // end to end in real time through Client::builder(): idle expiry and the idle bound with real
         // hyper connections, requests that outlast the idle timeout, pauses on both sides of it
